@@ -1,7 +1,10 @@
 import Dasp.Driver.Loop
+import Dasp.Driver.Osc
 open Dasp.Driver
 
--- stub: replaced when property C17 is wired in
 def main : IO Unit := runDriver fun
+  | "osc" :: rest => oscLine rest
+  | "noise" :: rest => noiseLine rest
+  | "simplex" :: rest => simplexLine rest
   | [] => ""
   | _ => "bad-op"
